@@ -286,9 +286,17 @@ def ob_quoting(ctx: Ctx) -> Outcome:
                     safe_names.add(t)  # list of quoted, escaped literals
                 elif src in ("self.compile_chain(field_def.pattern.constraints)", "'[^\\\\n]*'") or src.startswith("self._sanitize_rule_name(") or src.startswith("f'{base_rule_name}_{suffix}'") or src == "base_rule_name":
                     safe_names.add(t)
+        # only f-strings that become grammar text: arguments of rules.append, returned values, and
+        # comprehension elements bound to a name that is later joined into a returned value
+        grammar_js: list[ast.JoinedStr] = []
         for node in ast.walk(fn):
-            if not isinstance(node, ast.JoinedStr):
-                continue
+            if isinstance(node, ast.Call) and isinstance(node.func, ast.Attribute) and node.func.attr == "append" and ast.unparse(node.func.value) == "rules":
+                grammar_js += [x for a in node.args for x in ast.walk(a) if isinstance(x, ast.JoinedStr)]
+            elif isinstance(node, ast.Return) and node.value is not None:
+                grammar_js += [x for x in ast.walk(node.value) if isinstance(x, ast.JoinedStr)]
+            elif isinstance(node, ast.Assign) and isinstance(node.value, ast.ListComp) and isinstance(node.value.elt, ast.JoinedStr):
+                grammar_js.append(node.value.elt)
+        for node in grammar_js:
             in_quote = False
             for kind, piece in _fragments_of_joined(node):
                 if kind == "const":
@@ -456,6 +464,15 @@ def ob_rule_names(ctx: Ctx) -> Outcome:
             wits.append(Witness(what="compile_schema: the `field` rule is not built from the allocated rule names", key="alloc:field-refs", input=""))
     n = len(defined_const) + len(need) + 2
     if wits:
+        failed, text = replay_collisions()
+        if not failed:
+            # the allocation code no longer has the shape this contract is keyed to, but every collision probe
+            # (including numbered fall-back names) compiles without duplicates: not decided here, B1 decides
+            return Outcome.undecided("ast-shape", "rule-name allocation has a shape this contract does not recognise (" + "; ".join(w.what[:80] for w in wits[:3]) + f"); probes: {text}")
+        for w in wits:
+            w.confirmed = True
+            w.what += f" — {text}"
+            w.replay = {"runner": "props.C12:replay_collisions", "args": {}}
         return Outcome.refuted("ast-shape", wits, count=n)
     return Outcome.ok("ast-shape", count=n, structural=sorted(set(names)), reserved=sorted(reserved))
 
@@ -479,7 +496,7 @@ def replay_collisions():
     from octave_mcp.core.schema_extractor import FieldDefinition, SchemaDefinition
 
     bad = []
-    for names in (["WS"], ["CONTENT"], ["FIELD"], ["ROOT"], ["DOCUMENT"], ["A.B", "a_dot_b"], ["Name", "NAME"], ["x_2", "X", "x"]):
+    for names in (["WS"], ["CONTENT"], ["FIELD"], ["ROOT"], ["DOCUMENT"], ["A.B", "a_dot_b"], ["Name", "NAME"], ["x_2", "X", "x"], ["STATUS", "status", "STATUS_2"], ["STATUS_2", "STATUS", "status"], ["CONTENT", "content_2"], ["content_2", "CONTENT"], ["A.B", "a_dot_b", "A.B-2"], ["X", "x", "x_2", "X_2", "x_3"], ["WS", "ws_2", "WS_2"]):
         s = SchemaDefinition(name="S", version="1.0")
         for nm in names:
             s.fields[nm] = FieldDefinition(name=nm, pattern=None, raw_value="")
